@@ -30,6 +30,10 @@ the plain enums `E<i>`, a field may end at a proper subclass of a builtin scalar
 with a scalar mix-in (`class Mint0(enum.IntEnum)`, `class Mint1(int, enum.Enum)`, `class Mstr0(enum.StrEnum)`, …) or at
 an unrelated plain class (`class P0`): none of them is builtin-valued, the mix-in enums are enums.
 
+Field overriding: a subclass may re-declare a field name it inherits with another annotation (`f0: C4` over `f0: C3`,
+`List[C4]` over `List[C3]`, `Optional[int]` over `int`, ...); the class then has ONE field of that name, analysed as its
+own (most derived) declaration says — `typing.get_type_hints(cls)[name]` — while the base keeps its own.
+
 Ground truth never comes from the code under test: the Lean driver computes `spec=` from the generating terms."""
 from __future__ import annotations
 
@@ -48,7 +52,7 @@ except ModuleNotFoundError:  # run as a script (render helper at the bottom): ha
     from core import Case
 
 PID = "C17"
-LEAN_MODULES = ["KrroodVerif.Props.C17"]
+LEAN_MODULES = ["KrroodVerif.Props.C17", "KrroodVerif.Props.C17Override"]
 THEOREMS = [
     "KrroodVerif.CD.C17_classify",
     "KrroodVerif.CD.C17_classify_partial",
@@ -66,6 +70,14 @@ THEOREMS = [
     "KrroodVerif.CD.C17_accessors_pure",
     "KrroodVerif.CD.C17_consistent",
     "KrroodVerif.CD.C17_enum_one_to_one",
+    # field overriding (Props/C17Override.lean)
+    "KrroodVerif.CD.C17_fields_names_nodup",
+    "KrroodVerif.CD.C17_public_names_nodup",
+    "KrroodVerif.CD.C17_fieldsOf_unfold",
+    "KrroodVerif.CD.C17_override_most_derived",
+    "KrroodVerif.CD.C17_inherited_unless_redeclared",
+    "KrroodVerif.CD.C17_override_keeps_position",
+    "KrroodVerif.CD.C17_edges_any_fields",
 ]
 
 
@@ -140,7 +152,9 @@ TRUSTED = [
 ASSUMPTIONS = [
     "CPython 3.12 typing: get_type_hints evaluates string annotations to the objects they name; get_origin/get_args "
     "as tabulated in CD.getOrigin/CD.getArgs (X | None is a types.UnionType, Union[None, X] keeps None first)",
-    "dataclasses.fields: inherited fields first (bases right to left, no diamonds generated), then own fields",
+    "dataclasses.fields: inherited fields first (bases right to left, no diamonds generated), then own fields; a name "
+    "declared again (by the class itself or by a base listed earlier) keeps the position of its first introduction and "
+    "takes the later declaration; typing.get_type_hints(cls)[name] is the annotation of the most derived declaration",
     "rustworkx PyDiGraph: edge_list() in insertion order; get_edge_data/remove_edge pick the most recently added "
     "parallel edge; graph.copy() is independent of the original",
     "fields annotated with a TypeVar (`x: T` in a Generic class) are not generated: a TypeVar is not a term of the "
@@ -148,12 +162,17 @@ ASSUMPTIONS = [
     "endpoint classes: listed builtin scalar | proper subclass of a builtin scalar (class Sfloat0(float); bool cannot be "
     "subclassed) | plain Enum | Enum with a scalar mix-in (IntEnum, StrEnum, (int|str|float, Enum)) | dataclass of the "
     "world | other plain class; builtin-valued means exact membership in [int, float, str, bool, datetime, NoneType]",
-    "field names are unique in a case, every field has a default, no Role classes, no bare containers, no Dict / "
+    "a field name is declared at most once per class body (a subclass may re-declare the names it inherits, with any "
+    "annotation of the grammar), every field has a default (so re-declaring never hits the dataclass rule about "
+    "non-default fields after default ones), no Role classes, no bare containers, no Dict / "
     "FrozenSet / Any annotations (outside the supported grammar: container_types names the supported containers)",
 ]
 RULE = ("small-scope exhaustive families (generic bases Generic[T] / C0[arg] / plain subclasses x class lists; twin "
         "diagrams sharing class objects in one process; every wrapper form x leaf x quoting on a two-class world; every pair of "
-        "wrappers; inheritance shapes x class-list orders x sub-diagram sequences) plus seeded random programs from "
+        "wrappers; inheritance shapes x class-list orders x sub-diagram sequences; field overriding: narrowing / widening / "
+        "wrapper change / class <-> scalar x where in the hierarchy the name is re-declared, incl. the same name in two "
+        "unrelated bases) plus seeded random programs (a subclass re-declares each inherited field with probability "
+        "0 / 0.15 / 0.3 / 0.6 per program) from "
         "the annotation grammar; every case builds the diagram in the given and in the reversed class order; "
         "non-trivial = the specification demands at least one edge; distinct by case text")
 EXHAUSTIVE = True
